@@ -26,7 +26,7 @@ RULE = ('one evaluation = one seeded run: (a) a single-client history of push/pu
         'conservation (pushed = pulled + remaining); or (c) the same with one consumer process killed at a seeded seam event of a '
         'pull; non-trivial = at least 3 queue operations (a) / a context switch (b, c); distinct = SHA-256 of program or event log')
 ASSUMPTIONS = ['free-running real producer/consumer processes are replaced by seeded schedules of simulated processes']
-PROBES = ('queue_ops', 'cull_expired', 'lock_wait', 'kill', 'related_prefixes')
+PROBES = ('queue_ops', 'cull_expired', 'lock_wait', 'related_prefixes')
 TECHNIQUE = 'deterministic simulation: model-based checking of queue histories under a virtual clock; seeded schedules + linearizability against a deque model; consumer crash injection'
 LEVEL_TEXT = ('seeded exploration of queue histories and of producer/consumer interleavings under the simulator, decided by an '
               'executable queue model step by step and by a linearizability search for the concurrent runs (exactly-once and '
